@@ -92,7 +92,7 @@ def main(tier, seed):
     chk.assumptions = ["granularity: one mpsc enqueue, notified swap/store, eventfd write/read, poll or try_recv (+ the poll of the dequeued task) per step",
                        "async-task (wake on idle schedules once, wake on scheduled/completed is a no-op, tasks run only via Runnable::run) and slab are assumed",
                        "futures are scripts of poll outcomes (pending / ready / wakes itself during the poll, then pending); CROSS-THREAD wakes that land while a task is being polled cannot occur under the baton scheduler (polls contain no yield point) - the self-wake reaches the same async-task path (woken_while_running)",
-                       "PARTIAL: Executor::drop racing a concurrent wake (finding F13) and StreamSource are not in the proved model; StreamSource is run sequentially against its expected output"]
+                       "PARTIAL: Executor::drop racing a concurrent wake (finding F13) is not in the proved model. StreamSource: coq/theories/StreamSrc.v models it with an external producer on one thread (push / close wake a stored waker); a self-waking scripted stream is additionally run against its expected output"]
     if not (st.get("harness_ok") and st.get("model_ok")):
         chk.violation("build", "correspondence broken: build failed\n%s\n%s" % (st.get("harness_log", "")[-2000:], st.get("model_log", "")[-2000:]), nofail=True)
         chk.cov.update({"evaluations": 0, "distinct_nontrivial": 0})
@@ -122,6 +122,39 @@ def main(tier, seed):
         want = " ".join(["I" + x for x in items] + ["END", "REMOVED"])
         if o != want:
             bad.append(("stream " + c, o, ["StreamSource delivered `%s`, expected `%s`" % (o, want)]))
+    # StreamSource with an external producer: coq/theories/StreamSrc.v (extracted) vs the real StreamSource; histories of push / close /
+    # dispatch, always ending with two dispatches; oracle = the property on the implementation's output
+    qrnd = random.Random(seed * 4099 + 10)
+    qcases = ["d d", "u1 d d", "u1 u2 d u3 d c d d", "c d d", "u1 c u2 d d", "d u5 d u6 u7 d c d d", "u1 d c d d", "u1 u2 c d d", "d d u3 c d d"]
+    for _ in range(60 if tier == "quick" else 3000):
+        ops, n = [], 0
+        for _ in range(qrnd.randint(1, 16)):
+            k = qrnd.random()
+            if k < 0.5:
+                n += 1
+                ops.append("u%d" % n)
+            elif k < 0.9:
+                ops.append("d")
+            else:
+                ops.append("c")
+        qcases.append(" ".join(ops + ["d", "d"]))
+    qimpl = p_c03.run_batch(vlib.HARNESS, "streamq", qcases)
+    qmodel, qmlog = vlib.run_model(["streamq"], qcases)
+    qdiff = [(c, a, b) for c, a, b in zip(qcases, qimpl, qmodel) if a != b]
+    for c, o in zip(qcases, qimpl):
+        pushed, closed = [], False
+        for w in c.split():
+            if w[0] == "u" and not closed:
+                pushed.append(w[1:])
+            elif w == "c":
+                closed = True
+        want = " ".join(["I" + x for x in pushed] + (["END", "REMOVED"] if closed else ["STILL"]))
+        if o != want:
+            bad.append(("streamq " + c, o, ["StreamSource with an external producer delivered `%s`; every item pushed before the close exactly once and in order, "
+                                            "then a single None and the removal iff the stream was closed, is `%s`" % (o, want)]))
+    for c, a, b in qdiff:
+        diffs.append(("streamq " + c, a, b))
+    chk.cov["stream_external_producer"] = {"histories": len(qcases), "model_impl_divergences": len(qdiff), "sample": {"case": qcases[2], "impl": qimpl[2] if len(qimpl) > 2 else ""}}
     chk.cov.update({
         "evaluations": len(cases) + len(sc), "distinct_nontrivial": len(set(impl)),
         "traces_validated_against_impl": len(cases) - len(diffs),
